@@ -24,46 +24,10 @@
 static bool g_verbose = false;
 #if SIM_FLAVOUR == SIM_TSAN
 extern "C" {
-int __tsan_get_report_data(void* report, const char** description, int* count, int* stack_count, int* mop_count, int* loc_count, int* mutex_count,
-                           int* thread_count, int* unique_tid_count, void** sleep_trace, unsigned long trace_size);
-int __tsan_get_report_mop(void* report, unsigned long idx, int* tid, void** addr, int* size, int* write, int* atomic, void** trace, unsigned long trace_size);
 __attribute__((used, visibility("default"))) const char* __tsan_default_options() {
   return "die_after_fork=0:exitcode=0:halt_on_error=0:report_signal_unsafe=0:history_size=2:detect_deadlocks=0:report_thread_leaks=0:"
          "symbolize=0:print_summary=0";
 }
-}
-struct TsanMop {
-  int tid, size, write;
-  uint64_t pc[4];
-  uint64_t addr;
-};
-struct TsanRep {
-  char desc[48];
-  int nmop;
-  TsanMop mop[2];
-  int call[2];
-};
-static TsanRep g_reps[64];
-static int g_nreps;
-extern "C" __attribute__((used, visibility("default"))) void __tsan_on_report(void* rep) {
-  if (g_nreps >= 64) return;
-  const char* d = nullptr;
-  int count = 0, stack_count = 0, mop_count = 0, loc = 0, mu = 0, th = 0, ut = 0;
-  void* sleep_trace[4];
-  __tsan_get_report_data(rep, &d, &count, &stack_count, &mop_count, &loc, &mu, &th, &ut, sleep_trace, 4);
-  TsanRep& r = g_reps[g_nreps++];
-  memset(&r, 0, sizeof(r));
-  if (d) strncpy(r.desc, d, sizeof(r.desc) - 1);
-  r.nmop = mop_count > 2 ? 2 : mop_count;
-  const uint64_t base = sim_image_base();
-  for (int i = 0; i < r.nmop; ++i) {
-    void* trace[8] = {0};
-    void* addr = nullptr;
-    int atomic = 0;
-    __tsan_get_report_mop(rep, (unsigned long)i, &r.mop[i].tid, &addr, &r.mop[i].size, &r.mop[i].write, &atomic, trace, 8);
-    for (int k = 0; k < 4; ++k) r.mop[i].pc[k] = trace[k] ? (uint64_t)trace[k] - base : 0;
-    r.mop[i].addr = (uint64_t)addr;
-  }
 }
 #endif
 #if SIM_FLAVOUR == SIM_ASAN
@@ -799,8 +763,10 @@ static void run_c12(const RunSpec& s, RunResult& R) {
   setup.release_all();
   fold_exec(R, setup, "setup");
 #if SIM_FLAVOUR == SIM_TSAN
+  const sim_tsan_report* g_reps = nullptr;
+  const int g_nreps = sim_tsan_reports(&g_reps);
   for (int i = 0; i < g_nreps; ++i) {
-    TsanRep& r = g_reps[i];
+    const sim_tsan_report& r = g_reps[i];
     Violation v;
     v.kind = "race";
     char buf[512];
